@@ -392,19 +392,29 @@ func ruleBlocksHead(r *Run, rule string) {
 						continue
 					}
 					r.Evals++
-					rhs := ast.Unparen(x.Rhs[i])
-					switch v := rhs.(type) {
-					case *ast.SliceExpr:
-						// judged by the SliceExpr case
-					case *ast.CallExpr:
-						isAppend := false
-						if id, ok := v.Fun.(*ast.Ident); ok && id.Name == "append" && len(v.Args) >= 1 && isBlocks(v.Args[0]) {
-							isAppend = true
+					for _, alt := range r.P.Alternatives(info, x.Rhs[i], 0) {
+						rhs := ast.Unparen(alt)
+						switch v := rhs.(type) {
+						case *ast.SliceExpr:
+							if rhs == ast.Unparen(x.Rhs[i]) {
+								break // written in place: judged by the SliceExpr case
+							}
+							lo, isC := int64(0), false
+							if v.Low != nil {
+								lo, isC = ConstInt(info, v.Low)
+							}
+							ok := isBlocks(v.X) && isC && lo == 1 && v.High == nil && !v.Slice3
+							note("blocks-pop:"+name, x.Pos(), ok && popAllowed[name], "Data.blocks assigned "+ExprStr(v)+" in "+name+"; allowed: [1:] in BlockEnd/ExecuteBlock")
+						case *ast.CallExpr:
+							isAppend := false
+							if id, ok := v.Fun.(*ast.Ident); ok && id.Name == "append" && len(v.Args) >= 1 && isBlocks(v.Args[0]) {
+								isAppend = true
+							}
+							note("blocks-fill:"+name, x.Pos(), isAppend && fillAllowed[name], "Data.blocks assigned "+ExprStr(rhs)+" in "+name+"; appends are allowed only while Start/Recovery build the list")
+						default:
+							isNil := ValueKey(info, rhs) == "nil"
+							note("blocks-pop:"+name, x.Pos(), isNil && popAllowed[name], "Data.blocks assigned "+ExprStr(rhs)+" in "+name)
 						}
-						note("blocks-fill:"+name, x.Pos(), isAppend && fillAllowed[name], "Data.blocks assigned "+ExprStr(rhs)+" in "+name+"; appends are allowed only while Start/Recovery build the list")
-					default:
-						isNil := ValueKey(info, rhs) == "nil"
-						note("blocks-pop:"+name, x.Pos(), isNil && popAllowed[name], "Data.blocks assigned "+ExprStr(rhs)+" in "+name)
 					}
 				}
 			}
@@ -786,39 +796,36 @@ func ruleYieldDiscipline(r *Run, rule string, fn *Func, visitors map[string]bool
 					s = &site{pos: e.Pos, name: name}
 					sites[e.Pos] = s
 				}
-				u := UseOfResult(fl, p, ci)
+				// Could the visitor have answered false on this path? Assume it did and see whether the
+				// path (up to the next evaluation of the same call) is still possible.
+				next := FirstAfter(p, ci, func(x Event) bool { return x.Kind == EvCall && x.Call == e.Call && x.Depth == e.Depth })
+				theCall := e.Call
+				atom := func(x ast.Expr) (string, bool, bool) {
+					if ast.Unparen(x) == ast.Expr(theCall) {
+						return "answer", false, true
+					}
+					return "", false, false
+				}
 				problem := ""
-				switch u.Verdict {
-				case "false":
-					// must return before any further visitor call
-					ri := FirstAfter(p, u.At, func(x Event) bool { return x.Kind == EvReturn && !x.Deferred })
-					vi := FirstAfter(p, u.At, func(x Event) bool {
-						if x.Kind != EvCall {
+				if !PathRefutedRange(fl, p, ci+1, next, map[string]bool{"answer": false}, atom) {
+					isVisit := func(x Event) bool {
+						if x.Kind != EvCall || x.Depth != e.Depth {
 							return false
 						}
 						if v, ok := x.Callee.(*types.Var); ok && v.Name() == name {
 							return true
 						}
 						return visitors[CalleeKey(x)]
-					})
-					li := FirstAfter(p, u.At, func(x Event) bool { return x.Kind == EvRange || x.Kind == EvSelect })
-					if p.Exit == ExitReturn && (ri < 0 && len(p.Ev) > 0 || (vi >= 0 && (ri < 0 || vi < ri)) || (li >= 0 && (ri < 0 || li < ri))) {
-						problem = "after " + name + " answered false the function keeps going (next visit/loop before any return): iteration must stop immediately when the consumer stops"
 					}
-					if ri >= 0 && len(p.Ev[ri].Rhs) == 1 && ValueKey(fl.Info, p.Ev[ri].Rhs[0]) == "true" {
+					ri := FirstAfter(p, ci, func(x Event) bool { return x.Kind == EvReturn && !x.Deferred })
+					vi := FirstAfter(p, ci, isVisit)
+					li := FirstAfter(p, ci, func(x Event) bool { return (x.Kind == EvRange || x.Kind == EvSelect) && x.Depth == e.Depth })
+					continues := (vi >= 0 && (ri < 0 || vi < ri)) || (li >= 0 && (ri < 0 || li < ri)) || (ri < 0 && p.Exit == ExitTruncated && (vi >= 0 || li >= 0))
+					if continues {
+						problem = "after " + name + " answered false the function can keep going (next visit/loop before any return; exit guard " + ExitGuardKey(fl, p) + "): iteration must stop immediately when the consumer stops (a range-over-func iterator otherwise panics with 'continued iteration after function for loop body returned false')"
+					}
+					if ri >= 0 && len(p.Ev[ri].Rhs) == 1 && ValueKey(fl.Info, p.Ev[ri].Rhs[0]) == "true" && (vi < 0 || ri < vi) {
 						problem = "the false answer of " + name + " is turned into true: the caller continues the walk"
-					}
-				case "true", "returned":
-				default:
-					if u.Kind == "direct-return" {
-						break
-					}
-					// discarded: acceptable only if directly followed by a return
-					next := FirstAfter(p, ci, func(x Event) bool { return !x.Deferred && x.Kind != EvBranch })
-					if next < 0 || p.Ev[next].Kind != EvReturn {
-						if p.Exit == ExitReturn || next >= 0 {
-							problem = "the result of " + name + " is ignored (" + u.Kind + "/" + u.Verdict + ") and the function continues: when the consumer stops, iteration goes on (a range-over-func iterator then panics with 'continued iteration after function for loop body returned false')"
-						}
 					}
 				}
 				if problem != "" && s.bad == "" {
